@@ -27,10 +27,10 @@ type CLICase struct {
 	FJSON     bool   `json:"fjson"`     // -formatted-json
 	JSONFile  bool   `json:"json_file"` // -json-file out.json
 	FJSONFile bool   `json:"fjson_file"`
-	Mode      string `json:"mode"`      // "" (absent) | NEW | NOTHING | OVERWRITE | BOGUS
+	Mode      string `json:"mode"` // "" (absent) | NEW | NOTHING | OVERWRITE | BOGUS
 	NoOutput  bool   `json:"no_output"`
-	Files     string `json:"files"`     // "one" | "glob" | "subdir" | "nomatch" | "absent"
-	Dir       int    `json:"dir"`       // which directory fixture
+	Files     string `json:"files"`      // "one" | "glob" | "subdir" | "nomatch" | "absent"
+	Dir       int    `json:"dir"`        // which directory fixture
 	StaleSink bool   `json:"stale_sink"` // out.json / outf.json exist beforehand, longer than any result
 }
 
@@ -151,6 +151,7 @@ func checkCLICase(c CLICase) (sig, what string, nmatch int) {
 			var v *libvore.Vore
 			v, lerr = libvore.Compile(cliPrograms[c.Program])
 			if lerr == nil && len(fileList) > 0 {
+				setStepLimit(0) // no limit; also clears a stale watchdog abort flag
 				want = v.RunFiles(fileList, engine.NOTHING, false)
 			}
 		}()
